@@ -120,7 +120,7 @@ def print6 (a : Bytes) : Bytes :=
   let (bs, bl) := bestRun ws
   let (bs, bl) := if bl < 2 then (0, 0) else (bs, bl)
   let v4tail := bs == 0 && bl > 0 &&
-    (bl == 6 || (bl == 7 && ws.getLast? != some 1) || (bl == 5 && ws[5]? == some 0xffff))
+    (bl == 6 || (bl == 5 && ws[5]? == some 0xffff))
   let nw := if v4tail then 6 else 8
   let left := ((ws.take nw).take bs).map hexOf
   let right := ((ws.take nw).drop (bs + bl)).map hexOf
